@@ -462,21 +462,34 @@ func repoGarbageCollect(repo Repo, conf config.Config, index types.Index, locked
 	}
 	seen := map[digest.Digest]bool{}
 	// walked tracks manifests that have been parsed, a digest may also have been seen as a config or layer of another manifest
-	walked := map[digest.Digest]bool{}
+	// an entry that lists the digest under another kind of media type (index, image, other) does not stand for this one
+	type walkKey struct {
+		dig  digest.Digest
+		kind int
+	}
+	walkKind := func(mt string) int {
+		if types.MediaTypeIndex(mt) {
+			return 1
+		} else if types.MediaTypeImage(mt) {
+			return 2
+		}
+		return 0
+	}
+	walked := map[walkKey]bool{}
 	// walk all manifests to note seen digests
 	for len(manifests) > 0 {
 		// work from tail to make deletes easier
 		d := manifests[len(manifests)-1]
 		manifests = manifests[:len(manifests)-1]
 		inIndex[d.Digest] = true
-		if walked[d.Digest] {
+		if walked[walkKey{d.Digest, walkKind(d.MediaType)}] {
 			continue
 		}
 		br, err := repo.blobGet(d.Digest, locked)
 		if err != nil {
 			continue
 		}
-		walked[d.Digest] = true
+		walked[walkKey{d.Digest, walkKind(d.MediaType)}] = true
 		seen[d.Digest] = true
 		// parse manifests for descriptors (manifests, config, layers)
 		if types.MediaTypeIndex(d.MediaType) {
@@ -502,8 +515,6 @@ func repoGarbageCollect(repo Repo, conf config.Config, index types.Index, locked
 			}
 		} else {
 			// unknown media type listed in an index, treat it as a blob
-			// the same digest may also be listed as a manifest, this entry does not stand for its config and layers
-			delete(walked, d.Digest)
 			errClose := br.Close()
 			if errClose != nil {
 				continue
